@@ -9,6 +9,7 @@ the rules see:
   E2  tuple extension     `(*a, x)`                      ->  `a + (x,)`
   E3  tests in NNF        `not (a and b)` -> `not a or not b`, `not a == b` -> `a != b`,
                           `not a < b` -> `a >= b`, `lo <= x <= hi` -> `lo <= x and x <= hi`
+  E6  operator helpers    `operator.attrgetter("a")(x)` -> `x.a`, `methodcaller("m")(x)` -> `x.m()`, `itemgetter(k)(x)` -> `x[k]`
   E4  boolean `if` exprs  `a if c else False` -> `c and a`, `True if c else b` -> `c or b`   (a, b, c boolean)
   S1  else hoisting       `if c: A(jumps) else: B`       ->  `if c: A` ; B
                           `if c: A else: B(jumps)`       ->  `if not c: B` ; A
@@ -246,6 +247,52 @@ class _Expr(ast.NodeTransformer):
                 if isinstance(v, ast.FormattedValue):
                     v.value = self.visit(v.value)
         return new
+
+    _OPERATOR_BIN = {"truediv": ast.Div, "floordiv": ast.FloorDiv, "add": ast.Add, "sub": ast.Sub, "mul": ast.Mult, "mod": ast.Mod,
+                     "or_": ast.BitOr, "and_": ast.BitAnd, "xor": ast.BitXor}
+    _OPERATOR_CMP = {"eq": ast.Eq, "ne": ast.NotEq, "lt": ast.Lt, "le": ast.LtE, "gt": ast.Gt, "ge": ast.GtE, "is_": ast.Is, "is_not": ast.IsNot}
+
+    def visit_Call(self, node: ast.Call) -> ast.AST:
+        self.generic_visit(node)
+        # E6 `operator.truediv(a, b)` is `a / b` (also the bare names truediv / floordiv imported from operator)
+        fn_ = node.func
+        opname = None
+        if isinstance(fn_, ast.Attribute) and isinstance(fn_.value, ast.Name) and fn_.value.id == "operator":
+            opname = fn_.attr
+        elif isinstance(fn_, ast.Name) and fn_.id in ("truediv", "floordiv"):
+            opname = fn_.id
+        if opname and len(node.args) == 2 and not node.keywords:
+            if opname in self._OPERATOR_BIN:
+                self.changed = True
+                return _loc(ast.BinOp(left=node.args[0], op=self._OPERATOR_BIN[opname](), right=node.args[1]), node)
+            if opname in self._OPERATOR_CMP:
+                self.changed = True
+                return _loc(ast.Compare(left=node.args[0], ops=[self._OPERATOR_CMP[opname]()], comparators=[node.args[1]]), node)
+            if opname == "getitem":
+                self.changed = True
+                return _loc(ast.Subscript(value=node.args[0], slice=node.args[1], ctx=ast.Load()), node)
+            if opname == "contains":
+                self.changed = True
+                return _loc(ast.Compare(left=node.args[1], ops=[ast.In()], comparators=[node.args[0]]), node)
+        # E6 `operator.attrgetter("a")(x)` is `x.a`; methodcaller / itemgetter likewise
+        f = node.func
+        if isinstance(f, ast.Call) and len(node.args) == 1 and not node.keywords and not f.keywords:
+            name = f.func.attr if isinstance(f.func, ast.Attribute) and isinstance(f.func.value, ast.Name) and f.func.value.id == "operator" else (
+                f.func.id if isinstance(f.func, ast.Name) else None)
+            x = node.args[0]
+            if name == "attrgetter" and len(f.args) == 1 and isinstance(f.args[0], ast.Constant) and isinstance(f.args[0].value, str):
+                cur: ast.expr = x
+                for part in f.args[0].value.split("."):
+                    cur = ast.Attribute(value=cur, attr=part, ctx=ast.Load())
+                self.changed = True
+                return _loc(cur, node)
+            if name == "methodcaller" and f.args and isinstance(f.args[0], ast.Constant) and isinstance(f.args[0].value, str):
+                self.changed = True
+                return _loc(ast.Call(func=ast.Attribute(value=x, attr=f.args[0].value, ctx=ast.Load()), args=f.args[1:], keywords=[]), node)
+            if name == "itemgetter" and len(f.args) == 1:
+                self.changed = True
+                return _loc(ast.Subscript(value=x, slice=f.args[0], ctx=ast.Load()), node)
+        return node
 
     def visit_Lambda(self, node: ast.Lambda) -> ast.AST:
         self.generic_visit(node)
